@@ -43,6 +43,7 @@ var (
 	fns    []func(int) int
 	shapes []Shape
 	reg    map[string]*Node
+	pairs  [][][2]int // slices whose ELEMENTS are arrays (value-typed elements)
 )
 
 func itoa(i int) string { return strconv.Itoa(i) }
@@ -273,6 +274,72 @@ func GetSlice(CURs int) string {
 	return showSlice(slices[s])
 }
 
+// ---- slices of arrays: elements are values, a new backing array must copy them
+func okP(s int) bool { return s >= 0 && s < len(pairs) }
+
+func showPairs(s [][2]int) string {
+	r := itoa(len(s)) + ":"
+	for _, e := range s {
+		r += itoa(e[0]) + "." + itoa(e[1]) + ","
+	}
+	return r
+}
+
+func MkPairs(CURn int) string {
+	if n < 0 || n > 4 {
+		return "bad"
+	}
+	s := make([][2]int, n)
+	for i := range s {
+		s[i] = [2]int{i, i * 10}
+	}
+	pairs = append(pairs, s)
+	return itoa(len(pairs) - 1)
+}
+
+// the clone idiom: a fresh backing array, every element array copied
+func ClonePairs(CURs int) string {
+	if !okP(s) {
+		return "bad"
+	}
+	c := append([][2]int(nil), pairs[s]...)
+	pairs = append(pairs, c)
+	return itoa(len(pairs) - 1)
+}
+
+// the same slice header under a second handle: shares the backing array
+func DupPairs(CURs int) string {
+	if !okP(s) {
+		return "bad"
+	}
+	pairs = append(pairs, pairs[s])
+	return itoa(len(pairs) - 1)
+}
+
+// growth past cap (cap == len always): reallocates and copies the elements
+func AppPair(CURs, a, b int) string {
+	if !okP(s) {
+		return "bad"
+	}
+	pairs[s] = append(pairs[s], [2]int{a, b})
+	return showPairs(pairs[s])
+}
+
+func SetPair(CURs, i, j, v int) string {
+	if !okP(s) || i < 0 || i >= len(pairs[s]) || j < 0 || j > 1 {
+		return "bad"
+	}
+	pairs[s][i][j] = v
+	return "ok"
+}
+
+func GetPairs(CURs int) string {
+	if !okP(s) {
+		return "bad"
+	}
+	return showPairs(pairs[s])
+}
+
 // ---- pointers into structs, arrays and slices
 func PtrV(CURn int) string {
 	if !okN(n) {
@@ -463,7 +530,11 @@ func Render(CUR_ int) string {
 	for _, h := range shapes {
 		s += itoa(h.Area()) + ";"
 	}
-	s += "]R" + itoa(len(reg))
+	s += "]R" + itoa(len(reg)) + "Q["
+	for _, q := range pairs {
+		s += showPairs(q) + ";"
+	}
+	s += "]"
 	return s
 }
 `
